@@ -315,6 +315,67 @@ def check_C12(tier, seed):
             out.violation("c12:directive-order:%d" % gi, "the same rule directives written in another order give %s" % ("different code" if code is not None and ref[0][2] is not None else "a different outcome (%s vs %s)" % (r[:1] if r else None, ref[0][3][:1] if ref[0][3] else None)),
                           {"grammar_text": text, "grammar_text_ref": ref[0][1]})
     out.coverage["directive_permutations"] = nperm
+    # ---- raw line breaks inside literals, through the file-reading routes: a grammar file with CR LF line endings whose
+    # literals hold a raw CR LF / CR / LF denotes the same grammar as the one spelling them \r\n - whether the text is
+    # handed to the library or read from the file by the build-script helper (Compile::file)
+    import subprocess
+    import c15
+    import c16
+    bs = c15.build_bscript()
+    nraw = 10 if tier == "quick" else 60
+    raw_jobs = []
+    raw_meta = []
+    for gi in range(nraw):
+        prof = profs[gi % len(profs)]
+        g = ggen.Gen(random.Random("c12/%s/%d" % (seed, gi)), ggen.profile(prof)).grammar()
+        base = grender.render(g, None)
+        rr = random.Random("c12raw/%s/%d" % (seed, gi))
+        pieces = [rr.choice(["\r\n", "\r", "\n", "\r\n\r\n", "\n\r", "a\r\nb", "\r\nz", "q\r\n"]) for _ in range(3)]
+        esc = lambda x: x.replace("\r", "\\r").replace("\n", "\\n")
+        raw_text = base.replace("\n", "\r\n") + "RawBreaks12 = '%s' \"%s\" i'%s' ['\r'..'\r'];\r\n" % tuple(pieces)
+        esc_text = base + "RawBreaks12 = '%s' \"%s\" i'%s' ['\\r'..'\\r'];\n" % tuple(esc(x) for x in pieces)
+        gr = os.path.join(wd, "raw%d.ebnf" % gi)
+        ge = os.path.join(wd, "esc%d.ebnf" % gi)
+        with open(gr, "w", encoding="utf-8", newline="") as f:
+            f.write(raw_text)
+        with open(ge, "w", encoding="utf-8", newline="") as f:
+            f.write(esc_text)
+        ctx = "vfrt::Ctx" if g.user_ctx else "-"
+        raw_jobs.append(("raw%d" % gi, gr, os.path.join(wd, "raw%d.rs" % gi), "-", ctx))
+        raw_jobs.append(("esc%d" % gi, ge, os.path.join(wd, "esc%d.rs" % gi), "-", ctx))
+        raw_meta.append((gi, raw_text, esc_text, ctx))
+    rr_ = build.run_cgdrv("gen", raw_jobs, wd)
+    nraw_done = 0
+    for gi, raw_text, esc_text, ctx in raw_meta:
+        def rd(pth):
+            with open(pth, encoding="utf-8") as fh:
+                return fh.read()
+        codes = {}
+        for tag in ("raw", "esc"):
+            r = rr_.get("%s%d" % (tag, gi))
+            codes["library, " + ("raw line breaks" if tag == "raw" else "escapes")] = rd(os.path.join(wd, "%s%d.rs" % (tag, gi))) if r and r[0] == "ok" else None
+        dest = os.path.join(wd, "rawbs%d.rs" % gi)
+        pr = subprocess.run([bs, "run", os.path.join(wd, "raw%d.ebnf" % gi), dest, "-", "-", "0", ctx], stdout=subprocess.PIPE, stderr=subprocess.PIPE, env=build.BASE_ENV, timeout=120)
+        if pr.stdout.decode().strip() == "OK":
+            body = c16.strip_header(rd(dest))
+            codes["Compile::file, raw line breaks"] = body
+            lib = codes["library, raw line breaks"]
+            if lib is not None and body != lib and body.rstrip("\n") == lib.rstrip("\n"):
+                codes["Compile::file, raw line breaks"] = lib
+        else:
+            codes["Compile::file, raw line breaks"] = None
+        evaluations += 1
+        nontriv += 1
+        nraw_done += 1
+        if len(set(codes.values())) != 1:
+            groups = {}
+            for k_, v_ in codes.items():
+                groups.setdefault(v_, []).append(k_)
+            out.violation("c12:raw-line-breaks:%s" % "/".join(sorted(k_.split(",")[0] for ks in list(groups.values())[1:] for k_ in ks)),
+                          "raw CR / LF characters inside literals of a CR LF grammar file are not read as the characters they are: %s" % " | ".join(
+                              "%s: %s" % (", ".join(ks), "rejected" if c is None else "%d bytes of code" % len(c)) for c, ks in groups.items()),
+                          {"grammar_text": raw_text, "grammar_text_ref": esc_text})
+    out.coverage["raw_line_break_grammars"] = nraw_done
     out.samples = [{"grammar_text": meta[j][2][:600], "rendering": meta[j][1]} for j in list(meta)[5:8]]
     out.coverage["grammars"] = ngr
     out.coverage["renderings_per_grammar"] = nrend
